@@ -724,3 +724,51 @@ def rule_CP2(ctx, files=None):
                              % (f.q, g.q, x, y, c, z, owner.loc(at)))
     res.analysed.update({'function_clone_pairs': npairs})
     return res, npairs
+
+
+def rule_SWP1(ctx, files=None):
+    res = RuleResult('SWP1', 'sine/cosine companions are exchanged together: where a block exchanges the sines of two angles '
+                             '(`swap(sphi1, sphi2)`), it also exchanges their cosines (`swap(cphi1, cphi2)`), and vice versa')
+    import re as _r
+    nsw = 0
+    seen = set()
+    for f in sorted(ctx.lib_fns(), key=lambda x: (x.file, x.line)):
+        if not _in(f, files) or f.d.get('body', -1) < 0 or (f.file, f.line, f.name) in seen:
+            continue
+        seen.add((f.file, f.line, f.name))
+        for i, n in f.all_nodes():
+            if n['k'] != 'CompoundStmt' and n['k'] != 'IfStmt':
+                continue
+            # swaps that are direct statements of this block (or the single statement of this if)
+            stmts = n['ch'] if n['k'] == 'CompoundStmt' else [x for x in (n.get('then', -1), n.get('else', -1)) if x >= 0 and
+                                                              f.nodes[x]['k'] != 'CompoundStmt']
+            swaps = []
+            for st in stmts:
+                m = f.nodes[f.strip(st)] if st >= 0 else None
+                if m is None or (m.get('callee') or {}).get('name') != 'swap' or len(m.get('args', [])) != 2:
+                    continue
+                a, b = [f.nodes[f.strip_casts(x)] for x in m['args']]
+                if a['k'] == 'DeclRefExpr' and b['k'] == 'DeclRefExpr':
+                    swaps.append((a.get('name'), b.get('name'), st))
+            names = {(a, b) for a, b, _ in swaps} | {(b, a) for a, b, _ in swaps}
+            for a, b, st in swaps:
+                ma, mb = _r.match(r'^([sc])([a-z]+[0-9]*)$', a or ''), _r.match(r'^([sc])([a-z]+[0-9]*)$', b or '')
+                if not ma or not mb or ma.group(1) != mb.group(1) or ma.group(2) == mb.group(2):
+                    continue
+                other = 'c' if ma.group(1) == 's' else 's'
+                ca, cb = other + ma.group(2), other + mb.group(2)
+                # only where the companions exist as variables of this function
+                have = {p_['name'] for p_ in f.params}
+                for j, m in f.all_nodes():
+                    if m['k'] == 'DeclStmt':
+                        have |= {d['name'] for d in m['decls']}
+                if ca not in have or cb not in have:
+                    continue
+                nsw += 1
+                ok = (ca, cb) in names
+                res.ob(ok, {'fn': f.q, 'swap': [a, b], 'companions': [ca, cb], 'at': f.loc(st)})
+                if not ok:
+                    res.fail(f.q, '%s,%s' % (a, b), f.loc(st), '%s and %s are exchanged at %s but their companions %s and %s are not'
+                             % (a, b, f.loc(st), ca, cb))
+    res.analysed['companion_swaps'] = nsw
+    return res, nsw
